@@ -1,3 +1,115 @@
-(** C17 - placeholder, replaced below *)
-From Coq Require Import ZArith List Bool.
-From Cij Require Import TextModel QhaInputModel ElastDatModel.
+(** C17 - input files round-trip: phonon data write/read (flagship), static table parse.
+    Models: theories/TextModel.v, QhaInputModel.v, ElastDatModel.v (hand transcriptions of
+    cij/io/traditional/qha_input.py and elast_dat.py, tied to the source on every run by
+    tools/props/c17.py).  Proofs: theories/Text.v, QhaInput.v, ElastDat.v. *)
+From Coq Require Import ZArith List Bool Strings.Byte.
+From Cij Require Import VoigtBase TextModel Text QhaInputModel QhaInput ElastDatModel ElastDat.
+Import ListNotations.
+Local Open Scope Z_scope.
+
+(** 1. write_energy then read_energy is the identity on every data set whose numbers carry the
+    written number of decimals: any nv, nq, np, any magnitudes and signs; nm, na >= 0; the comment
+    line must not itself match the 5-integer header pattern. *)
+Theorem qha_roundtrip :
+  forall comment d, comment_ok comment -> well_formed d -> at_written_precision d ->
+    parse_qha (print_qha comment d) = Some d.
+Proof. exact qha_roundtrip_l. Qed.
+
+(** 2. for arbitrary decimals (hence for every finite binary64 value) the parse is the data
+    rounded half-even to the written decimals *)
+Theorem qha_roundtrip_rounding :
+  forall comment d, comment_ok comment -> well_formed d ->
+    parse_qha (print_qha comment d) = Some (round_qha d).
+Proof. exact qha_roundtrip_rounding_l. Qed.
+
+(** 1'. the same at the level of the file contents (lines joined with "\n" and split again) *)
+Theorem qha_roundtrip_text :
+  forall comment d, nl_free comment -> comment_ok comment -> well_formed d -> at_written_precision d ->
+    parse_qha_text (print_qha_text comment d) = Some d.
+Proof. exact qha_roundtrip_text_l. Qed.
+
+(** non-vacuity: the default comment is admissible, and a data set with 2 volumes, 2 q-points,
+    3 modes, both signs, 0, +-1e5 satisfies the hypotheses *)
+Example default_comment_admissible : comment_ok default_comment /\ nl_free default_comment.
+Proof. exact default_comment_ok. Qed.
+Example qha_roundtrip_example :
+  parse_qha_text (print_qha_text default_comment example_qha) = Some example_qha.
+Proof.
+  apply qha_roundtrip_text; try apply default_comment_ok; apply example_qha_ok.
+Qed.
+
+(** 3. static tables.  (a) any white-space layout of a line gives back its tokens; (b) a label
+    <digit-free prefix><a><b> is keyed by the canonical key of the unordered Voigt pair {a,b}, whatever
+    the prefix and letter case, either index order, and the 4-index spelling gives the same key;
+    labels without digits stay string keys; (c) with pairwise different keys the row dictionary
+    is the list of (key, value) in column order; (d) the reader returns exactly the tabulated vref,
+    nv, cellmass, rows and lattice parameters, with or without lattice block. *)
+Theorem elast_tokens_any_layout :
+  forall fs trail, fields_ok fs -> all_space trail -> tokens (render_fields fs trail) = map snd fs.
+Proof. exact tokens_render. Qed.
+Theorem elast_key_any_prefix :
+  forall p a b, nodigit p -> In a r6 -> In b r6 ->
+  exists k, find_modulus_key (p ++ [digit_byte a; digit_byte b]) = Some (KMod k) /\
+            find_modulus_key (p ++ [digit_byte b; digit_byte a]) = Some (KMod k) /\
+            key_voigt k = (Z.min a b, Z.max a b).
+Proof. exact find_modulus_key_voigt. Qed.
+Theorem elast_key_standard_spelling :
+  forall p i j k l, nodigit p -> In i r3 -> In j r3 -> In k r3 -> In l r3 ->
+  find_modulus_key (p ++ map digit_byte [i; j; k; l]) =
+  find_modulus_key (p ++ map digit_byte [vidx i j; vidx k l]).
+Proof. exact find_modulus_key_standard. Qed.
+Theorem elast_label_without_digits : forall tok, nodigit tok -> find_modulus_key tok = Some (KStr tok).
+Proof. exact find_modulus_key_label. Qed.
+Theorem elast_row_dict :
+  forall (l : list (key * dec)), keys_distinct (map fst l) -> dict_of l = l.
+Proof. exact (@dict_of_distinct dec). Qed.
+Theorem elast_parse_spec :
+  forall hdr l1 l2 rowlines rest tv tn tm extra vref n mass keys rows lat,
+  tokens l1 = tv :: tn :: tm :: extra ->
+  parse_dec tv = Some vref -> parse_int tn = Some n -> parse_dec tm = Some mass ->
+  map_opt find_modulus_key (tokens l2) = Some keys ->
+  length rowlines = Z.to_nat n ->
+  Forall2 (fun l r => floats_of l = Some (fst r :: snd r)) rowlines rows ->
+  lattice_block (Z.to_nat n) rest lat ->
+  parse_elast (hdr :: l1 :: l2 :: rowlines ++ rest)
+  = Some (mkelast vref n mass (map (row_of keys) rows) lat).
+Proof. exact elast_parse_spec_l. Qed.
+Example elast_parse_example :
+  parse_elast ([] :: ex_l1 :: ex_l2 :: [ex_r1; ex_r2] ++ [ex_sep; ex_a1; ex_a2])
+  = Some (mkelast (mkdec 1005 1) 2 (mkdec 5025 2) (map (row_of ex_keys) ex_rows)
+       [[mkdec 10 1; mkdec 25 1]; [mkdec 15 1; mkdec 3 0]]).
+Proof. exact elast_example. Qed.
+
+(** 4. shape of the fill output: same two header lines, a table with the same number of rows and
+    the same volume column, the remainder unchanged => it parses to the same vref, nv, cellmass,
+    volumes and lattice parameters (the filled values themselves are checked on the implementation) *)
+Theorem fill_cli_structure :
+  forall hdr l1 l2 l2' rowlines rowlines' rest tv tn tm extra vref n mass keys keys' rows rows' lat,
+  tokens l1 = tv :: tn :: tm :: extra ->
+  parse_dec tv = Some vref -> parse_int tn = Some n -> parse_dec tm = Some mass ->
+  map_opt find_modulus_key (tokens l2) = Some keys ->
+  map_opt find_modulus_key (tokens l2') = Some keys' ->
+  length rowlines = Z.to_nat n -> length rowlines' = Z.to_nat n ->
+  Forall2 (fun l r => floats_of l = Some (fst r :: snd r)) rowlines rows ->
+  Forall2 (fun l r => floats_of l = Some (fst r :: snd r)) rowlines' rows' ->
+  map fst rows' = map fst rows ->
+  lattice_block (Z.to_nat n) rest lat ->
+  exists e e',
+    parse_elast (hdr :: l1 :: l2 :: rowlines ++ rest) = Some e /\
+    parse_elast (hdr :: l1 :: l2' :: rowlines' ++ rest) = Some e' /\
+    e_vref e' = e_vref e /\ e_nv e' = e_nv e /\ e_mass e' = e_mass e /\
+    map fst (e_vols e') = map fst (e_vols e) /\ e_lat e' = e_lat e /\
+    e_vols e' = map (row_of keys') rows'.
+Proof. exact fill_cli_structure_l. Qed.
+
+Print Assumptions qha_roundtrip.
+Print Assumptions qha_roundtrip_rounding.
+Print Assumptions qha_roundtrip_text.
+Print Assumptions qha_roundtrip_example.
+Print Assumptions elast_tokens_any_layout.
+Print Assumptions elast_key_any_prefix.
+Print Assumptions elast_key_standard_spelling.
+Print Assumptions elast_row_dict.
+Print Assumptions elast_parse_spec.
+Print Assumptions elast_parse_example.
+Print Assumptions fill_cli_structure.
